@@ -344,12 +344,13 @@ package server
 //@ import mux "github.com/cbeuw/Cloak/internal/multiplex"
 //@ ghost func registered(panel *userPanel, user *ActiveUser) bool { return mapHas(panel.activeUsers, user.arrUID) && panel.activeUsers[user.arrUID] == user }
 //@ ghost func noLocksHeld() bool { return holdsNone() }
+//@ ghost func goodCfg(c mux.SessionConfig) bool { return ghostcall("multiplex.cfgOK", c) }
 //@ lemma func sessionOwnerStaysRegistered(panel *userPanel, uid []byte, id uint32, cfg mux.SessionConfig) {
 //@     if panel == nil || panel.Manager == nil { return }
 //@     assume(noLocksHeld())
 //@     user, err := panel.GetUser(uid)
 //@     if err != nil { return }
-//@     assume(user.panel == panel && user.panel.Manager != nil && ghostcall("multiplex.cfgOK", cfg))
+//@     assume(user.panel == panel && user.panel.Manager != nil && goodCfg(cfg))
 //@     sesh, _, err2 := user.GetSession(id, cfg)
 //@     if err2 != nil || sesh == nil { return }
 //@     assert(registered(panel, user))
